@@ -7,3 +7,4 @@ MODULES = ["common", "action"]
 def load_all():
     for m in MODULES:
         importlib.import_module("contracts." + m)
+MODULES += ["util", "errors"]
